@@ -233,6 +233,29 @@ fn place_near(p: &mut Pos, rng: &mut Rng, c: Col, pc: Pc, near: u8) -> bool {
     true
 }
 
+/// Sparse positions rich in en-passant chances: pawns of one side still on their starting rank, enemy pawns
+/// on (or one step from) the rank from which they could capture en passant on adjacent files; kings out of the way.
+/// Small trees, so exhaustive walks of 5-6 plies cover every order of double steps, advances and king tempi.
+pub fn ep_rich_sparse(rng: &mut Rng) -> Pos {
+    loop {
+        let mut p = Pos::empty();
+        let mover = *rng.pick(&[Col::W, Col::B]);
+        let (start_rank, near_rank, far_rank, kr_own, kr_opp) = if mover == Col::W { (1u8, 3u8, 4u8, 0u8, 7u8) } else { (6u8, 4u8, 3u8, 7u8, 0u8) };
+        let f = 1 + rng.below(6) as u8;
+        p.sq[(start_rank * 8 + f) as usize] = Some((mover, Pc::P));
+        // enemy pawns on adjacent files: one already on the capturing rank, one a step away
+        let (a, b) = if rng.chance(0.5) { (f - 1, f + 1) } else { (f + 1, f - 1) };
+        p.sq[(near_rank * 8 + a) as usize] = Some((mover.opp(), Pc::P));
+        if rng.chance(0.8) { p.sq[(far_rank * 8 + b) as usize] = Some((mover.opp(), Pc::P)); }
+        if rng.chance(0.4) { let f2 = (f + 3 + rng.below(2) as u8) % 8; if p.sq[(start_rank * 8 + f2) as usize].is_none() { p.sq[(start_rank * 8 + f2) as usize] = Some((mover, Pc::P)); } }
+        let kf = if f < 4 { 7 } else { 0 };
+        p.sq[(kr_own * 8 + (7 - kf)) as usize] = Some((mover, Pc::K));
+        p.sq[(kr_opp * 8 + kf) as usize] = Some((mover.opp(), Pc::K));
+        p.turn = if rng.chance(0.7) { mover } else { mover.opp() };
+        if p.is_consistent() && !p.legal_moves().is_empty() { return p; }
+    }
+}
+
 #[derive(Clone, Copy, Debug, PartialEq, Eq)]
 pub enum Policy { Uniform, Special, CheckSeeking, Quiet, Shuffle }
 
